@@ -22,10 +22,11 @@ CTOR_LEN = 1  # Text.__init__: _length = len(text) before control codes are stri
 CROP_ENDS = 1  # Text.right_crop(0) erases the text; right_crop(n > len) makes _length negative
 STYLIZE_NEG = 1  # Text.stylize(start < -len) stores a negative span start; render repeats characters / raises
 GETITEM = 1  # Text.__getitem__(int) drops the base style, and all spans for a negative index
-DIVIDE_ORDER = 1  # Text.divide re-orders equal spans through its value-keyed `order` dict
-FLAGS = "".join(str(x) for x in (CTOR_LEN, CROP_ENDS, STYLIZE_NEG, GETITEM, DIVIDE_ORDER))
+DIVIDE_ORDER = 1  # Text.divide re-orders spans through its value-keyed `order` dict (a split remainder equal to a later span)
+ALIGN_NEG = 1  # Text.align pads by a negative excess (text wider than the width): pad_left shifts the spans off their characters
+FLAGS = "".join(str(x) for x in (CTOR_LEN, CROP_ENDS, STYLIZE_NEG, GETITEM, DIVIDE_ORDER, ALIGN_NEG))
 
-STYLES = L.STYLE_NAMES[1:]
+STYLES = L.STYLE_NAMES[1:7]
 CHARS = ["a", "b", "c", " ", " ", "\t", "\n", "あ", "̀", "\r", "\x08", "\x0b", "\x0c", "\x07", "…", "x"]
 PLAIN_CHARS = ["a", "b", " ", "\t", "\n", "あ", "̀", "x"]
 OVERFLOWS = [None, None, None, "fold", "crop", "ellipsis", "ignore"]
@@ -85,7 +86,7 @@ REGEXES = [
     (r"(?P<s1>a+)|(?P<s2>b)", None, ""),
     (r"(?P<s3>\s+)", "s4", ""),
     (r"a(?P<s2>.)?", "s1", ""),
-    (r"(?P<1>[ab]+)(?P<2>x)?", "", "s"),
+    (r"(?P<s1>[ab]+)(?P<s2>x)?", "", "p"),
     (r"\t|あ", "s6", ""),
     (r"$", "s2", ""),
 ]
@@ -227,13 +228,22 @@ class Sink:
             self.ctx.note(key)
 
 
-def judge(sink, site, t, r, classify):
+def judge(sink, site, t, r, classify, neg_before=False, base_lost=False):
     d = diff(t, r)
     if d is None:
         sink.passed(site)
         return
     kind, what = d
-    raise Failure(site, classify(kind), what)
+    finding = classify(kind)
+    if finding is None and base_lost and kind == "style":
+        # the text's own base style already differed from the reference's: `text[i]` dropped it at an earlier step
+        # where a covering span hid the loss; it shows now that new characters arrive under the base style.
+        finding = "getitem-int-loses-style"
+    if finding is None and neg_before and kind in ("style", "render-raises", "render-chars"):
+        # the text already carried a span with a negative start (only `stylize` creates one): the styles move
+        # onto other characters as soon as the spans are shifted.  Same defect, seen one step later.
+        finding = "stylize-negative-start"
+    raise Failure(site, finding, what)
 
 
 def py_ans(f):
@@ -263,6 +273,11 @@ def step(sink, t, r, op, first=False):
     n = len(r.cells)
     before = L.enc_text(t)
     none = lambda kind: None  # noqa: E731
+    neg = any(sp.start < 0 for sp in t._spans)
+    base_lost = t.style != r.base
+
+    def judge_(site, t2, r2, classify):
+        judge(sink, site, t2, r2, classify, neg, base_lost)
 
     def single(fn, args, res, shape=None):
         """correspondence for an operation yielding one text"""
@@ -277,7 +292,7 @@ def step(sink, t, r, op, first=False):
         res = py_ans(lambda: t.append(s, st))
         single("text_append_str", [enc_str(s), L.enc_opt_style(st)], res, shape="ctl" if L.strip_ctl(s) != s else "plain")
         r = L.ref_append_str(r, s, st)
-        judge(sink, "append(str)", t, r, none)
+        judge_("append(str)", t, r, none)
         return t, r
     if k in ("append_t", "append_text"):
         u, ur = build(op[1])
@@ -293,7 +308,7 @@ def step(sink, t, r, op, first=False):
             res = py_ans(lambda: t.append_text(u))
             single("text_append_text", [ue], res)
             r = L.ref_append_ref(r, ur)
-        judge(sink, "append(Text)", t, r, none)
+        judge_("append(Text)", t, r, none)
         return t, r
     if k == "add":
         if isinstance(op[1], str):
@@ -308,14 +323,14 @@ def step(sink, t, r, op, first=False):
         if res[0] != "ok":
             raise Failure("__add__", None, "raised " + res[1])
         t = res[1]
-        judge(sink, "__add__", t, r, none)
+        judge_("__add__", t, r, none)
         return t, r
     if k == "append_tokens":
         toks = op[1]
         res = py_ans(lambda: t.append_tokens(toks))
         single("text_append_tokens", ["%d:" % len(toks) + ",".join(enc_str(s) + "~" + L.enc_opt_style(st) for s, st in toks)], res)
         r = L.ref_append_tokens(r, toks)
-        judge(sink, "append_tokens", t, r, none)
+        judge_("append_tokens", t, r, none)
         return t, r
     if k == "assemble":
         _, pre, post, base = op
@@ -350,7 +365,7 @@ def step(sink, t, r, op, first=False):
         if status != "ok":
             raise Failure("assemble", None, "raised " + val)
         t, r = val, Ref(base, cells, None, 8)
-        judge(sink, "assemble", t, r, none)
+        judge_("assemble", t, r, none)
         return t, r
     if k in ("join_sep", "join_in"):
         if k == "join_sep":
@@ -368,7 +383,7 @@ def step(sink, t, r, op, first=False):
         if status != "ok":
             raise Failure("join", None, "raised " + val)
         t, r = val, L.ref_join(sr, [ur for _, ur in items])
-        judge(sink, "join", t, r, none)
+        judge_("join", t, r, none)
         return t, r
     if k in ("split", "divide"):
         if k == "split":
@@ -395,7 +410,7 @@ def step(sink, t, r, op, first=False):
         if len(val) != len(exp):
             raise Failure(site, None, f"{len(val)} pieces {[x.plain for x in val]!r}, an ordinary string gives {[x.s() for x in exp]!r}")
         for piece, pr in zip(val, exp):
-            judge(sink, site, piece, pr, lambda kind: "divide-order-alias" if kind == "style-order" else None)
+            judge_(site, piece, pr, lambda kind: "divide-order-alias" if kind == "style-order" else None)
         i = pick % len(val)
         return val[i], exp[i]
     if k == "slice":
@@ -405,7 +420,7 @@ def step(sink, t, r, op, first=False):
         if res[0] != "ok":
             raise Failure("__getitem__(slice)", None, "raised " + res[1])
         t, r = res[1], L.ref_slice(r, a, b)
-        judge(sink, "__getitem__(slice)", t, r, lambda kind: "divide-order-alias" if kind == "style-order" else None)
+        judge_("__getitem__(slice)", t, r, lambda kind: "divide-order-alias" if kind == "style-order" else None)
         return t, r
     if k == "index":
         i = op[1]
@@ -421,14 +436,14 @@ def step(sink, t, r, op, first=False):
         if res[0] != "ok":
             raise Failure("__getitem__(int)", None, "raised " + res[1])
         t, r = res[1], r2
-        judge(sink, "__getitem__(int)", t, r, lambda kind: "getitem-int-loses-style" if kind == "style" else None)
+        judge_("__getitem__(int)", t, r, lambda kind: "getitem-int-loses-style" if kind == "style" else None)
         return t, r
     if k in ("pad", "pad_left", "pad_right"):
         _, c, ch = op
         res = py_ans(lambda: getattr(t, k)(c, ch))
         single("text_" + k, [str(c), str(ord(ch))], (res[0], t if res[0] == "ok" else res[1]))
         r = L.ref_pad(r, c if k != "pad_right" else 0, c if k != "pad_left" else 0, ch)
-        judge(sink, k, t, r, none)
+        judge_(k, t, r, none)
         return t, r
     if k == "align":
         _, m, w, ch = op
@@ -436,18 +451,16 @@ def step(sink, t, r, op, first=False):
         single("text_align", [m[0], str(w), str(ord(ch))], (res[0], t if res[0] == "ok" else res[1]))
         from rich.cells import cell_len
 
-        if (r.overflow == "ignore") and cell_len(r.s()) > w:
-            sink.note("align:out-of-domain(overflow=ignore, too wide)")
-            raise Stop()
         r = L.ref_align(r, m, w, ch)
-        judge(sink, "align", t, r, none)
+        wider = cell_len(r.s()) > w  # truncation could not bring the text down to the width (overflow "ignore", or "…" in 0 cells)
+        judge_("align", t, r, lambda kind: "align-negative-excess" if wider and kind in ("style", "render-chars", "render-raises") else None)
         return t, r
     if k == "truncate":
         _, w, ov, pad = op
         res = py_ans(lambda: t.truncate(w, overflow=ov, pad=pad))
         single("text_truncate", [str(w), L.O[ov], "1" if pad else "0"], (res[0], t if res[0] == "ok" else res[1]), shape=str(ov))
         r = L.ref_truncate(r, w, ov, pad)
-        judge(sink, "truncate", t, r, none)
+        judge_("truncate", t, r, none)
         return t, r
     if k in ("right_crop", "set_length"):
         c = op[1]
@@ -455,10 +468,10 @@ def step(sink, t, r, op, first=False):
         single("text_" + k, [str(c)], (res[0], t if res[0] == "ok" else res[1]), shape="zero" if c == 0 else "beyond" if c > n else "in")
         if k == "right_crop":
             r = L.ref_right_crop(r, c)
-            judge(sink, k, t, r, lambda kind: "right-crop-zero-or-beyond" if (c == 0 or c > n) else None)
+            judge_(k, t, r, lambda kind: "right-crop-zero-or-beyond" if (c == 0 or c > n) else None)
         else:
             r = L.ref_set_length(r, c)
-            judge(sink, k, t, r, none)
+            judge_(k, t, r, none)
         return t, r
     if k == "expand_tabs":
         ts = op[1]
@@ -471,7 +484,7 @@ def step(sink, t, r, op, first=False):
         if res[0] != "ok":
             raise Failure("expand_tabs", None, "raised " + res[1])
         r = L.ref_expand_tabs(r, ts)
-        judge(sink, "expand_tabs", t, r, lambda kind: "divide-order-alias" if kind == "style-order" else None)
+        judge_("expand_tabs", t, r, lambda kind: "divide-order-alias" if kind == "style-order" else None)
         return t, r
     if k == "copy":
         res = py_ans(lambda: t.copy())
@@ -479,14 +492,14 @@ def step(sink, t, r, op, first=False):
         if res[0] != "ok":
             raise Failure("copy", None, "raised " + res[1])
         t = res[1]
-        judge(sink, "copy", t, r, none)
+        judge_("copy", t, r, none)
         return t, r
     if k == "stylize":
         _, st, a, b = op
         res = py_ans(lambda: t.stylize(st, a, b))
         single("text_stylize", [L.enc_style(st), str(a), L.enc_opt(b)], (res[0], t if res[0] == "ok" else res[1]), shape="before-start" if a < -n else "in")
         r = L.ref_stylize(r, st, a, b)
-        judge(sink, "stylize", t, r, lambda kind: "stylize-negative-start" if a < -n and kind.startswith("render") else None)
+        judge_("stylize", t, r, lambda kind: "stylize-negative-start" if a < -n and kind.startswith("render") else None)
         return t, r
     if k == "highlight":
         pattern, st, prefix = REGEXES[op[1]]
@@ -499,7 +512,7 @@ def step(sink, t, r, op, first=False):
             raise Failure("highlight_regex", None, f"appended spans {new!r} outside the text or with an unexpected style")
         sink.case("text_add_spans", [before, L.enc_spans(new)], L.ans_text(t))
         r = L.ref_highlight_regex(r, pattern, st, prefix)
-        judge(sink, "highlight_regex", t, r, none)
+        judge_("highlight_regex", t, r, none)
         return t, r
     if k == "copy_styles":
         spans = [(a, min(b, n), s) for a, b, s in op[1] if a <= n]
@@ -507,7 +520,7 @@ def step(sink, t, r, op, first=False):
         res = py_ans(lambda: t.copy_styles(u))
         single("text_copy_styles", [L.enc_text(u)], (res[0], t if res[0] == "ok" else res[1]))
         r = L.ref_add_spans(r, spans)
-        judge(sink, "copy_styles", t, r, none)
+        judge_("copy_styles", t, r, none)
         return t, r
     if k == "set_plain":
         s = op[1]
@@ -518,19 +531,19 @@ def step(sink, t, r, op, first=False):
         res = py_ans(f)
         single("text_set_plain", [enc_str(s)], (res[0], t if res[0] == "ok" else res[1]), shape="shrink" if len(s) < n else "grow" if len(s) > n else "same")
         r = L.ref_set_string(r, s)
-        judge(sink, "plain setter", t, r, none)
+        judge_("plain setter", t, r, none)
         return t, r
     if k == "rstrip":
         res = py_ans(lambda: t.rstrip())
         single("text_rstrip", [], (res[0], t if res[0] == "ok" else res[1]))
         r = L.ref_rstrip(r)
-        judge(sink, "rstrip", t, r, none)
+        judge_("rstrip", t, r, none)
         return t, r
     if k == "rstrip_end":
         res = py_ans(lambda: t.rstrip_end(op[1]))
         single("text_rstrip_end", [str(op[1])], (res[0], t if res[0] == "ok" else res[1]))
         r = L.ref_rstrip_end(r, op[1])
-        judge(sink, "rstrip_end", t, r, none)
+        judge_("rstrip_end", t, r, none)
         return t, r
     raise AssertionError("unknown op " + repr(op))
 
@@ -617,8 +630,7 @@ def run(ctx):
         "domain of the property: spans given to the constructor lie inside the stripped text (0 <= start <= end <= len); "
         "pad / crop counts, widths and set_length arguments are >= 0; divide offsets are non-decreasing and within the text; "
         "split separators have no proper border (every separator rich itself uses is a single character); "
-        "append_tokens / pad characters / plain-setter strings carry no strip-control character (they are not stripped by rich); "
-        "align on a text whose own overflow is 'ignore' and which is wider than the width is outside the domain; tab size >= 1",
+        "append_tokens / pad characters / plain-setter strings carry no strip-control character (they are not stripped by rich); tab size >= 1",
         "cell widths (truncate / align) are rich.cells' own (property C13)",
         "regex highlighters are span sources: their spans are checked to lie inside the text and are then given to the model",
     ]
@@ -701,7 +713,7 @@ def run(ctx):
         "1) single operations, bounded-exhaustive: %d small initial texts (strings %r x 4 span sets incl. duplicated spans x 2 base styles) x every "
         "argument inside/at/beyond both ends (indices -n-2..n+2, counts 0..n+2, every sorted offset tuple of <= 3); 2) %d malformed span / offset cases "
         "(model-vs-code only); 3) %d seeded random histories of 1..12 operations over 27 operation kinds, each step compared model-vs-code (state + "
-        "rendering) and against the reference styled string; distinct = distinct canonical requests" % (len(small_strings) * 8, n_mal, n_hist, small_strings)
+        "rendering) and against the reference styled string; distinct = distinct canonical requests" % (len(small_strings) * 8, small_strings, n_mal, n_hist)
     )
 
 
